@@ -54,7 +54,7 @@ let run (input : S.t) (observed : S.t) : S.t * string =
   (* (reuse) tells the harness to resolve parsed subscription requests again instead of parsing anew:
      the specification does not know the difference *)
   let ops = match input with S.L (S.A "hist" :: ops) -> ops | _ -> failwith "c19: input" in
-  let h = List.map op_of (List.filter (function S.L [S.A "reuse"] | S.L [S.A "share"] | S.L (S.A "subfail" :: _) -> false | _ -> true) ops) in
+  let h = List.map op_of (List.filter (function S.L [S.A "reuse"] | S.L [S.A "share"] | S.L [S.A "frag"] | S.L (S.A "subfail" :: _) -> false | _ -> true) ops) in
   (* (share): the subscribers of one pattern are one Go value; its clean-up cannot tell for which
      subscription it is called, the harness logs it under the pattern (1000+pattern+1): the clean-ups the
      model expects are renamed the same way (still one per subscription that is cleaned up) *)
